@@ -16,6 +16,7 @@ var Mapping = seq.Mapping{
 	"g":        seq.NewSingleType(seq.TokenizerTypeKeyword, "", 0),
 	"v":        seq.NewSingleType(seq.TokenizerTypeKeyword, "", 0),
 	"u":        seq.NewSingleType(seq.TokenizerTypeKeyword, "", 0),
+	"d":        seq.NewSingleType(seq.TokenizerTypeKeyword, "", 0),
 	"m":        seq.NewSingleType(seq.TokenizerTypeText, "", 0),
 	"_exists_": seq.NewSingleType(seq.TokenizerTypeKeyword, "", 0),
 }
